@@ -42,14 +42,21 @@ def c20_stages(ctx):
     if res.get("TestDeviant/identity") != "pass":
         c20_div(ctx, "c20 identity-wrapper-rejected", "the wrapper without deviation must be accepted")
     detected, undetected, unexercised = [], [], []
-    floor = set(l.strip() for l in open(os.path.join(VERIF, "lib", "c20_detected_floor.txt")) if l.strip() and not l.startswith("#"))
+    floor_lines = [l.strip() for l in open(os.path.join(VERIF, "lib", "c20_detected_floor.txt")) if l.strip() and not l.startswith("#")]
+    floor_commit = [l.split(":", 1)[1].strip() for l in floor_lines if l.startswith("floor_commit:")][0]
+    floor = set(l for l in floor_lines if not l.startswith("floor_commit:"))
+    # the floor binds the suite, not the library: it applies when the suite's own files differ from the floor commit
+    gd = subprocess.run(["git", "-C", REPO, "diff", "--quiet", floor_commit, "--", "fstest", "internal/assert"], capture_output=True)
+    suite_changed = gd.returncode == 1
+    if gd.returncode not in (0, 1):
+        ctx.notes.append("the floor commit %s is unknown to the repository: the detection floor was not applied" % floor_commit[:10])
     for d in deviants:
         if d == "identity":
             continue
         r = res.get("TestDeviant/" + d)
         if fired.get(d, 0) == 0:
             unexercised.append(d)
-            if d in floor:
+            if d in floor and suite_changed:
                 c20_div(ctx, "c20 no-longer-exercised %s" % d, "the suite rejected this deviant at the pinned commit (lib/c20_detected_floor.txt); now no scenario reaches the deviating sub-case, so the deviation passes unnoticed",
                         call="VERIF_C20_ONLY=%s go test -tags verif -run TestDeviant ./c20" % d)
         elif r == "fail":
@@ -57,6 +64,9 @@ def c20_stages(ctx):
         else:
             undetected.append(d)
             c20_div(ctx, "c20 undetected %s" % d, "deviation fired %d times during the suite, which reported no failure" % fired.get(d, 0), call="VERIF_C20_ONLY=%s go test -tags verif -run TestDeviant ./c20" % d)
+    lost = [d for d in unexercised if d in floor]
+    if lost and not suite_changed:
+        ctx.notes.append("no longer exercised although rejected at the floor commit, with fstest/ and internal/assert unchanged since (a library change): %s" % lost)
     nsub = sum(1 for t in res if t.count("/") >= 3)
     ctx.cov["stages"].append({"stage": "c20-suite", "deviants": len(deviants) - 1, "detected": len(detected), "undetected": undetected,
                               "not_exercised_by_the_suite": unexercised, "suite_subtests_run": nsub})
